@@ -20,7 +20,7 @@ ASSUMPTIONS = ["failpoints raise a RuntimeError subclass at the entry of a layer
                "sites at or below the transport cipher in the byte stream (network, segments in both directions, noise on receive) lose bytes of an ordered encrypted stream when they fail: "
                "for them same-connection follow-ups are only required not to block, and everything is required to work after a reconnect",
                "after-failure follow-ups run in helper threads so that a wedged stack is observed as a blocked thread instead of hanging the check"]
-REQUIRED = ["concurrent_followup_phases", "concurrent_followups_ok", "real_upward_failure_cases", "real_upward_failure_ok", "real_write_error_cases", "real_write_error_ok", "real_write_error:socket", "real_write_error:asyncore", "cases", "failpoints_reached", "natural_failures", "locks_censused", "followups_ok", "reconnect_followups_ok",
+REQUIRED = ["placed_followup_phases", "placed_followups_ok", "placed_round:me/send", "placed_round:me/recv", "placed_round:fresh/send", "placed_round:fresh/recv", "placed_round:fresh-any/send", "concurrent_followup_phases", "concurrent_followups_ok", "real_upward_failure_cases", "real_upward_failure_ok", "real_write_error_cases", "real_write_error_ok", "real_write_error:socket", "real_write_error:asyncore", "cases", "failpoints_reached", "natural_failures", "locks_censused", "followups_ok", "reconnect_followups_ok",
             "sites", "other_thread_followups"]
 TIMEOUT = {"quick": 600, "thorough": 7200}
 
@@ -219,6 +219,7 @@ def run_case(acc, seed, tag, d):
             for op, kind in SCRIPT:
                 (op_send if op == "send" else op_recv)(kind)
                 if st["fired"]:
+                    res["failed_op"] = op
                     break
         else:
             natural(d["kind"])
@@ -235,6 +236,65 @@ def run_case(acc, seed, tag, d):
             time.sleep(0.2)
             res["held_after_failure_200ms_later"] = probes.held_locks(W.clients[A].stack)
         res["phase"] = "followups"
+        # first of all, with the race placed (before any other thread has been through the layers' locks again): a fresh thread is held at a chosen line inside the lower layers' send path (it holds the
+        # locks of the layers above it) while the thread that lived through the failure sends; whoever comes second has to wait
+        if not critical and W.clients[A].connected and not res["blocked"]:
+            from vf import inject
+            c_ = W.clients[A]
+
+            def one(i_):
+                c_.guarded(lambda: c_.app.toLower(Blob(ProtocolTreeNode("iq", {"id": i_, "type": "set", "xmlns": "w"}, [ProtocolTreeNode("blob", {}, None, gen.blob(r, 40))], None))), "send:placed")
+            placed = []
+            placed_recv_ok = True
+            SEG = ("consonance/streams/segmented/blockingqueue.py",)
+            LOW = ("yowsup/layers/noise/layer.py", "yowsup/layers/noise/layer_noise_segments.py", "consonance/transport.py", "consonance/protocol.py", "yowsup/layers/network/layer.py")
+            me_name = threading.current_thread().name
+            # Rounds (held thread, what THIS thread - it lived through the failure - does meanwhile); "held" is at the first line of the
+            # cipher stream's write_segment, i.e. after the frame got its cipher counter and before it is queued for writing:
+            #   ("me", "send")   this thread is held inside its own send while a fresh thread sends
+            #   ("me", "recv")   this thread plays the network thread: an incoming notification makes the library send its ack, it is
+            #                    held inside that while a fresh thread sends
+            #   ("fresh", "send") / ("fresh", "recv")   the fresh thread is held while this thread sends / acknowledges
+            #   ("fresh-any", "send")   the fresh thread is held anywhere in the Noise layer / cipher transport
+            # The first round repeats the kind of operation that failed, with this thread held (a thread that passes through the
+            # layers' locks normally may wipe out what the failure left behind, so the suspicious combination goes first).
+            first = ("me", "recv") if res.get("failed_op") == "recv" else ("me", "send")
+            rest = [x for x in [("me", "send"), ("me", "recv"), ("fresh", "send"), ("fresh", "recv")] if x != first]
+            r.shuffle(rest)
+            sent_ids = []
+            for rnd_, (who_, role_) in enumerate([first] + rest + [("fresh-any", "send")]):
+                pa = inject.PauseAt(LOW if who_ == "fresh-any" else SEG, r.choice([1, 2, 3, 5, 8, 13]) if who_ == "fresh-any" else 1, me_name if who_ == "me" else "verif-held-sender",
+                                    hold=0.12, funcs=None if who_ == "fresh-any" else ("write_segment",))
+
+                def fresh(i_=rnd_, pa_=pa, wait_=(who_ == "me")):
+                    if wait_:
+                        pa_.at_point.wait(2)
+                    one("cph-%d" % i_)
+                sent_ids.append("cph-%d" % rnd_)
+                t_ = threading.Thread(target=fresh, name="verif-held-sender")
+                t_.daemon = True
+                with pa:
+                    t_.start()
+                    if who_ != "me":
+                        pa.at_point.wait(2)
+                    if role_ == "send":
+                        one("cpx-%d" % rnd_)
+                        sent_ids.append("cpx-%d" % rnd_)
+                    else:
+                        placed_recv_ok = op_recv("notif") and placed_recv_ok
+                    held = pa.at_point.is_set()
+                    t_.join(20)
+                if t_.is_alive():
+                    stt = probes.thread_states([t_]).get(t_.name, [])
+                    res["blocked"] = ("placed follow-up send", [list(f[:3]) for f in stt[:6]], probes.blocked_on_lock(stt) or probes.parked_forever(stt))
+                    return
+                placed.append((held, "%s/%s@%s" % (who_, role_, pa.where)))
+                if held:
+                    acc.count("placed_round:%s/%s" % (who_, role_))
+            W.run(max_steps=W.steps + 4000)
+            got_ids = [i_ for ph, i_ in W.server.iq_ids_seen if ph == A and str(i_).startswith("cp")]
+            res["placed"] = {"sent": sent_ids, "got": got_ids, "held": placed, "recv_ok": placed_recv_ok}
+            acc.count("placed_followup_phases")
         fu = []
         if not critical:
             plan = [("send", "ping", False), ("recv", "ping", False), ("send", "presence", d["other_thread"]), ("recv", "notif", False),
@@ -391,6 +451,17 @@ def run_case(acc, seed, tag, d):
             bad("lock-held:%s" % ",".join(sorted(set(res[phase]))[:3]), "lock(s) %s still held at quiescence (%s)" % (res[phase], phase))
             W.close()
             return
+    pl = res.get("placed")
+    if pl:
+        miss = [i_ for i_ in pl["sent"] if pl["got"].count(i_) != 1] + ([] if pl["recv_ok"] else ["(the ack of the notification received meanwhile)"])
+        if miss or res.get("peer_errors_same_conn"):
+            bad("placed-followups:%s" % ("stream-corrupt" if res.get("peer_errors_same_conn") else "not-exactly-once"),
+                "after the failure, the thread that saw it sends while another thread is held inside the lower layers' send path (%s): %s"
+                % (pl["held"], "the peer cannot decrypt the stream any more (%s)" % (res["peer_errors_same_conn"][:1],) if res.get("peer_errors_same_conn") else "stanzas %s arrived not exactly once" % miss[:4]))
+            W.close()
+            return
+        else:
+            acc.count("placed_followups_ok")
     # (c) follow-ups
     for op, kind, thr, ok in res.get("followups", []):
         if not ok:
